@@ -1,6 +1,8 @@
 import PsaDhcp.Proofs.CodeCsum
 import PsaDhcp.Proofs.CodeLayer
 import PsaDhcp.Proofs.CodeLayerIp
+import PsaDhcp.Proofs.CodeDhcp
+import PsaDhcp.Spec.Rfc2131
 import PsaDhcp.Proofs.Wire
 /-
 Corollaries: property statements of C13 transferred from the model to the translated Go code.
@@ -95,5 +97,23 @@ theorem code_udp_checksum_verifies (h : Gen.layer.IPv4) (u : Gen.layer.UDP) (d :
     rw [hd]
     exact (Except.ok.inj hu).symm
   exact Wire.udp_checksum_verifies (ipv4Of h) (udpOf u) hd' hp hl
+
+theorem code_dhcp_decode_never_panics (b : Bytes) (site : String) :
+    Gen.dhcpmsg.Decode b ≠ .error (.panic site) := by
+  rw [CodeDhcp.Decode_eq]
+  exact liftDec_ne_panic _ _ _ (Dhcp.decode_never_panics b site)
+
+/-- Acceptance by the translated `Decode` ⇔ the RFC 2131/2132 reading (layout + option grammar). -/
+theorem code_dhcp_decode_iff_grammar (b : Bytes) (g : Gen.dhcpmsg.Message) :
+    Gen.dhcpmsg.Decode b = .ok (some g, none) ↔
+      ∃ m, msgToGen m = g ∧ 240 ≤ b.length ∧ Spec.FixedAt b m ∧ Spec.Area (b.drop 240) m.options := by
+  rw [CodeDhcp.Decode_eq]
+  constructor
+  · intro h
+    obtain ⟨m, hm, hg⟩ := liftDec_ok _ _ _ h
+    exact ⟨m, hg, (Dhcp.decode_iff_grammar b m).1 hm⟩
+  · rintro ⟨m, hg, h⟩
+    rw [(Dhcp.decode_iff_grammar b m).2 h]
+    simp [liftDec, hg]
 
 end PsaDhcp.Proofs.CodeCor
